@@ -171,6 +171,11 @@ static void mk_value (int i, int kind)
         if (n > 0) a->ref = (unsigned short) IN.ref[i];      /* 1 = this stack slot is the only holder, 2 = one more holder elsewhere */
         else IN.ref[i] = 0;
         for (k = 0; k < CAP; k++) if (k < n) { a->item[k].type = T_NUMBER; a->item[k].subtype = 0; a->item[k].u.number = IN.elem[i * 4 + k]; }
+#ifdef VERIF_ARRAY_ITEMS
+        /* the rest of the typed block holds numbers too (a real block ends at item[n]): reading them is not a CBMC bounds
+           failure in this encoding; the index oracle reports it instead (an index outside 0..n-1 must raise an error) */
+        if (n > 0) for (k = 0; k < VERIF_ARRAY_ITEMS; k++) if (k >= n) { a->item[k].type = T_NUMBER; a->item[k].subtype = 0; a->item[k].u.number = 0x5a5a5a5a; }
+#endif
         garr[i] = a; gkind[i] = KARR;
         sp++; sp->type = T_ARRAY; sp->subtype = 0; sp->u.arr = a;
         break;
@@ -209,14 +214,22 @@ static void post_step (int from_error)
      inside the value -> that byte; outside -> an LPC error (for strings the terminator position i == length reads 0) */
   {
     int64_t v = IN.num[0], n = (int64_t) IN.len[1], pos = INDEXREF_REVERSE ? n - v : v;
-    int is_str = (gkind[1] == KSTR);
+    int is_str = (gkind[1] == KSTR), is_arr = (gkind[1] == KARR);
     int inside = pos >= 0 && (pos < n || (is_str && pos == n));
     if (inside)
       {
-        unsigned char want = (pos == n) ? 0 : IN.bytes[8 + pos];
-        /* CBMC 6.11 returns unconstrained values for reads of a trailing item[1] array beyond index 0 (struct hack), so
-           for buffers the element value is compared at index 0 only; strings (char *) are compared everywhere */
-        VERIF_ASSERT ("C03.index.in_range_returns_that_element", !from_error && sp == sp_base + 1 && sp->type == T_NUMBER && (sp->u.number == (int64_t) want || (!is_str && pos > 0)));
+        if (is_arr)
+          {
+            /* typed array blocks (VERIF_ARRAY_ITEMS): elements are read precisely at every index */
+            VERIF_ASSERT ("C03.index.in_range_returns_that_element", !from_error && sp == sp_base + 1 && sp->type == T_NUMBER && sp->u.number == IN.elem[4 + pos]);
+          }
+        else
+          {
+            unsigned char want = (pos == n) ? 0 : IN.bytes[8 + pos];
+            /* CBMC 6.11 returns unconstrained values for reads of a trailing item[1] array beyond index 0 (struct hack), so
+               for buffers the element value is compared at index 0 only; strings (char *) are compared everywhere */
+            VERIF_ASSERT ("C03.index.in_range_returns_that_element", !from_error && sp == sp_base + 1 && sp->type == T_NUMBER && (sp->u.number == (int64_t) want || (!is_str && pos > 0)));
+          }
         VERIF_WITNESS ("index_in_range");
       }
     else
